@@ -246,6 +246,8 @@ type aggregate struct {
 	samples    []interface{}
 	viols      []*TrialResult
 	sigs       map[string]bool
+	survey     map[string]int
+	surveyEx   map[string]string
 }
 
 func (a *aggregate) add(r *TrialResult) {
@@ -274,6 +276,13 @@ func (a *aggregate) add(r *TrialResult) {
 			tr = append(append([]string{}, tr[:60]...), fmt.Sprintf("... (%d more lines)", len(r.Trace)-60))
 		}
 		a.samples = append(a.samples, map[string]interface{}{"trial": r.Trial, "seed": r.Seed, "trace": tr})
+	}
+	if r.Violation != nil && a.survey != nil {
+		a.survey[r.Violation.Signature]++
+		if _, ok := a.surveyEx[r.Violation.Signature]; !ok {
+			a.surveyEx[r.Violation.Signature] = r.Violation.Detail
+		}
+		return
 	}
 	if r.Violation != nil && !a.sigs[r.Violation.Signature] && len(a.viols) < 3 {
 		a.sigs[r.Violation.Signature] = true
@@ -373,6 +382,11 @@ func (d *driver) check() int {
 	wallCap := time.Duration(envInt("VERIF_WALL_S", map[string]int{"quick": 150, "thorough": 1500}[d.tier])) * time.Second
 	agg := &aggregate{nontrivial: map[string]struct{}{}, states: map[uint64]struct{}{}, scheds: map[uint64]struct{}{},
 		stats: map[string]int64{}, knownHits: map[string]int64{}, sigs: map[string]bool{}}
+	survey := os.Getenv("VERIF_SURVEY") != ""
+	if survey {
+		agg.survey = map[string]int{}
+		agg.surveyEx = map[string]string{}
+	}
 	var next int64 = -1
 	var stop int32
 	var wg sync.WaitGroup
@@ -433,7 +447,7 @@ func (d *driver) check() int {
 					continue
 				}
 				agg.add(res)
-				if res.Violation != nil {
+				if res.Violation != nil && !survey {
 					agg.mu.Lock()
 					n := len(agg.viols)
 					agg.mu.Unlock()
@@ -446,6 +460,18 @@ func (d *driver) check() int {
 	}
 	wg.Wait()
 	searchWall := time.Since(d.start)
+	if survey {
+		var sigs []string
+		for s := range agg.survey {
+			sigs = append(sigs, s)
+		}
+		sort.Strings(sigs)
+		for _, s := range sigs {
+			fmt.Printf("SURVEY %6d  %s\n        %s\n", agg.survey[s], s, strings.ReplaceAll(agg.surveyEx[s], "\n", "\n        "))
+		}
+		fmt.Printf("SURVEY total trials=%d distinct signatures=%d\n", agg.evals, len(sigs))
+		return 0
+	}
 
 	// 3. report violations: confirm on a fresh process, minimise, write replay
 	for _, v := range agg.viols {
